@@ -178,6 +178,8 @@ class Check(PropertyCheck):
             yield Scenario(["new", "cpnew", f"mark middur {rng.randint(0, 10**6)}"], {"families": "middur", "solves": 1})
         # a build / solve / drop loop (the way a benchmark study runs): same shape, same total processing time, every
         # instance garbage before the next one exists - each answer must be about the instance that was passed
+        for k in range(3 if tier == "quick" else 20):
+            yield Scenario(["new", "cpnew", f"mark resolve {rng.randint(0, 10**6)}"], {"families": "resolve", "solves": 3})
         for k in range(3 if tier == "quick" else 25):
             yield Scenario(["new", "cpnew", f"mark gcloop {rng.randint(0, 10**6)}"], {"families": "gcloop", "solves": 10})
         if tier == "thorough":
@@ -316,6 +318,32 @@ class Check(PropertyCheck):
                     break
                 del inst, sched
                 gc.collect()
+        elif line.startswith("mark resolve"):
+            # the same solver object solves the same instance object again after the caller has taken the first result apart
+            # (reset it, or dispatched something else into it): the second answer is a schedule of its own - complete, feasible, optimal
+            from impl_ext import _ORToolsSolver
+            r = random.Random(int(line.split()[2]))
+            _, jobs = gen.gen_instance(r, r.choice(["classic", "irregular", "recirc", "ties"]), max_jobs=3, max_machines=3, max_ops=3, max_dur=6)
+            inst = build_instance(jobs)
+            solver = _ORToolsSolver()
+            try:
+                first = solver.solve(inst)
+                dump1 = oracles.dump_schedule(first.schedule)
+                if r.random() < 0.5:
+                    first.reset()
+                else:
+                    first.schedule[0].clear()
+                second = solver(inst) if r.random() < 0.5 else solver.solve(inst)
+            except Exception as e:  # pylint: disable=broad-except
+                res.append(("solve-raised", f"solving the same instance twice raised {e!r} (instance {jobs})"))
+            else:
+                if second is first:
+                    res.append(("aliased", "the second solve of the same instance handed out the very Schedule object of the first one"))
+                res += [(k, f"second solve of the same instance by the same solver: {msg}") for k, msg in self.check_schedule(inst, jobs, second)]
+                third = solver.solve(inst)
+                if oracles.dump_schedule(second.schedule) != oracles.dump_schedule(third.schedule) and second.makespan() != third.makespan():
+                    res.append(("not-optimal", "two solves of one instance by one solver report different optimal makespans"))
+                del dump1
         elif line.startswith("mark stalemeta"):
             # free-form metadata (also keys that look like bounds, as the benchmark instances carry them) is not part of
             # the problem: a small instance with made-up `lower_bound` / `upper_bound` / `optimum` entries
